@@ -128,31 +128,43 @@ theorem picker_error_outcome (e : GoErr) (ff : Bool) :
   · intro hn hf hff
     simp [pickErr, a54, hn, hf, hff, codeUnavailable]
 
-/-- F24: the config-selector site can hand io.EOF to the application — "every non-nil error returned
-    by Invoke/NewStream carries a status" is false of the unchanged code. -/
-theorem config_selector_eof_counterexample :
-    ¬ ∀ e : GoErr, e ≠ .nil → carriesStatus (configSelectorErr e) = true := by
-  intro h
-  have := h .eof (by simp)
-  simp [configSelectorErr, a54, fromError, findStatus, toRPCErr, carriesStatus] at this
-
-/-- Partial (full statement: `∀ e ≠ nil, carriesStatus (configSelectorErr e)`, refuted above): every
-    config-selector error other than nil/io.EOF (looking through NewStreamError) surfaces as a status. -/
-theorem config_selector_error_is_status_partial (e : GoErr) (h1 : stripNSE e ≠ .nil) (h2 : stripNSE e ≠ .eof) :
+/-- Every error a config selector returns surfaces from Invoke/NewStream as a status — io.EOF
+    included (before /repo commit 2bdf416 io.EOF leaked unchanged: finding F24, then documented by
+    `config_selector_eof_counterexample` and a `_partial` version of this theorem). The hypothesis
+    excludes only a `*NewStreamError` whose `Err` is nil, which `toRPCErr` maps to nil. -/
+theorem config_selector_error_is_status (e : GoErr) (h1 : stripNSE e ≠ .nil) :
     carriesStatus (configSelectorErr e) = true := by
   unfold configSelectorErr a54
   cases hf : fromError e with
   | none =>
     simp only
-    rcases toRPCErr_is_status_or_nil_or_eof e with h | h | h
-    · exact absurd ((toRPCErr_nil_iff e).mp h) h1
-    · exact absurd ((toRPCErr_eof_iff e).mp h) h2
-    · exact h
+    split
+    · rfl
+    · rename_i hne
+      rcases toRPCErr_is_status_or_nil_or_eof e with h | h | h
+      · exact absurd ((toRPCErr_nil_iff e).mp h) h1
+      · exact absurd h hne
+      · exact h
   | some c =>
     simp only
     split
     · rfl
     · simp [carriesStatus, hf]
+
+/-- F31: when the attempt limit is hit on the SendMsg path, `shouldRetry` wraps the attempt's io.EOF in a
+    plain error: SendMsg then returns an error that is neither io.EOF nor a status — "every non-nil error
+    returned by SendMsg (other than io.EOF) carries a status" is false of the code. -/
+theorem retry_exhausted_sendmsg_counterexample :
+    ¬ ∀ e : GoErr, retryExhausted e = .eof ∨ carriesStatus (retryExhausted e) = true := by
+  intro h
+  have := h .eof
+  simp [retryExhausted, carriesStatus, fromError, findStatus] at this
+
+/-- Partial (full statement refuted above): when the wrapped attempt error carries a status (the
+    RecvMsg / finish path), the "max retries exhausted" error still carries that status (errors.As). -/
+theorem retry_exhausted_keeps_status_partial (e : GoErr) (c : Nat) (h : fromError e = some c) :
+    fromError (retryExhausted e) = some c := by
+  simpa [retryExhausted, fromError, findStatus] using h
 
 /-- Per-RPC credential errors always reach the application as a status (both sites). -/
 theorem creds_error_is_status (site : CredsSite) (e : GoErr) : carriesStatus (credsErr site e) = true :=
@@ -166,6 +178,7 @@ example : pickErr (.wrapped (.status 5)) false = .fail (.status 13) := by decide
 example : pickErr (.status 7) true = .fail (.status 7) := by decide
 example : credsErr .transportCreds .other = .status 16 := by decide
 example : credsErr .callCreds (.connErr (.status 7)) = .status 14 := by decide
-example : configSelectorErr (.newStreamErr .eof) = .eof := by decide
+example : configSelectorErr (.newStreamErr .eof) = .status 2 := by decide
+example : configSelectorErr (.wrapped (.status 9)) = .status 13 := by decide
 
 end GrpcProofs.C24
